@@ -390,6 +390,10 @@ func genAction(t *rapid.T) Action {
 		}
 		return a
 	}
+	return genHelper(t)
+}
+
+func genHelper(t *rapid.T) Action {
 	a := Action{Spread: uint8(rapid.IntRange(0, 3).Draw(t, "spread")), Stops: genStopsSpec(t)}
 	nz := func(l string) ops.F32 {
 		v := grid(t, l)
@@ -483,51 +487,67 @@ func TestPipelines(t *testing.T) {
 				a = Action{K: "nreg", Adj: uint8(adj), F: []ops.F32{ops.F32(float32(v))}}
 				labels["instruction-spelled-like-the-previous-operand"] = true
 			}
-			c.Actions = append(c.Actions, a)
-			switch a.K {
-			case "csel", "nsel":
-				if a.Sel >= 64 {
-					labels["selector-argument>=64"] = true
+			todo := []Action{a}
+			if i+30 < n && rapid.IntRange(0, 29).Draw(t, "walk") == 0 {
+				// incrementing colour writes walk CSEL past 63 and on into the registers the gradient
+				// helpers use for their stops (10...), then a helper is called: it must refuse
+				// everywhere, or nowhere
+				h := genHelper(t)
+				from := rapid.IntRange(50, 63).Draw(t, "walk.from")
+				land := 10 + rapid.IntRange(0, len(h.Stops)).Draw(t, "walk.land") // one past the stop range too
+				todo = []Action{{K: "csel", Sel: uint8(from)}}
+				for k := 0; k < 64-from+land; k++ {
+					col := ops.RGBAv(gen.PremulColor(t, "walk.c"))
+					todo = append(todo, Action{K: "creg", Incr: true, C: &col})
 				}
-			case "creg", "nreg":
-				if a.Incr {
-					sinceIncr = true
-					if a.K == "creg" && model.ModelCSel() == 63 || a.K == "nreg" && model.ModelNSel() == 63 {
-						labels["selector-wraps"] = true
-					}
-				}
-			case "read":
-				if sinceIncr {
-					labels["read-back-after-increment"] = true
-				}
-			case "linear", "circular", "elliptical", "gradient":
-				labels["helper:"+a.K] = true
-				if sinceIncr {
-					labels["helper-after-increment"] = true
-				}
-				cs := model.ModelCSel()
-				if cs >= 10 && int(cs) < 10+len(a.Stops) {
-					labels["helper-error-path:CSEL-in-stop-range"] = true
-				}
-			case "path":
-				if len(a.Draw) > 16 {
-					labels["run-across-the-repeat-limit"] = true
-				}
-				for _, o := range a.Draw {
-					if (o.K == ops.AbsArcTo || o.K == ops.RelArcTo) && o.LargeArc != o.Sweep {
-						labels["arc-with-asymmetric-flags"] = true
-					}
-				}
-			case "reset":
-				labels["reset-mid-sequence"] = true
-				model.Reset(ivg.DefaultViewBox, ivg.DefaultPalette)
-				sinceIncr = false
+				todo = append(todo, h, Action{K: "path", F: []ops.F32{-20, -20, 20, -20, 0, 40}})
+				i += len(todo) - 1
+				labels["incrementing-writes-walk-CSEL-past-63-into-the-stop-registers-then-helper"] = true
 			}
-			var mg generate.Generator
-			mg.SetDestination(model)
-			apply(&mg, a)
-			if a.K == "csel" || a.K == "nsel" {
-				// a plain selector write forgets earlier increments only for that selector; keep it simple
+			for _, a := range todo {
+				c.Actions = append(c.Actions, a)
+				switch a.K {
+				case "csel", "nsel":
+					if a.Sel >= 64 {
+						labels["selector-argument>=64"] = true
+					}
+				case "creg", "nreg":
+					if a.Incr {
+						sinceIncr = true
+						if a.K == "creg" && model.ModelCSel() == 63 || a.K == "nreg" && model.ModelNSel() == 63 {
+							labels["selector-wraps"] = true
+						}
+					}
+				case "read":
+					if sinceIncr {
+						labels["read-back-after-increment"] = true
+					}
+				case "linear", "circular", "elliptical", "gradient":
+					labels["helper:"+a.K] = true
+					if sinceIncr {
+						labels["helper-after-increment"] = true
+					}
+					cs := model.ModelCSel()
+					if cs >= 10 && int(cs) < 10+len(a.Stops) {
+						labels["helper-error-path:CSEL-in-stop-range"] = true
+					}
+				case "path":
+					if len(a.Draw) > 16 {
+						labels["run-across-the-repeat-limit"] = true
+					}
+					for _, o := range a.Draw {
+						if (o.K == ops.AbsArcTo || o.K == ops.RelArcTo) && o.LargeArc != o.Sweep {
+							labels["arc-with-asymmetric-flags"] = true
+						}
+					}
+				case "reset":
+					labels["reset-mid-sequence"] = true
+					model.Reset(ivg.DefaultViewBox, ivg.DefaultPalette)
+					sinceIncr = false
+				}
+				var mg generate.Generator
+				mg.SetDestination(model)
+				apply(&mg, a)
 			}
 		}
 		nt := labels["read-back-after-increment"] || labels["helper-after-increment"] || labels["selector-wraps"] || labels["reset-mid-sequence"]
